@@ -396,11 +396,22 @@ def run(ctx):
                 continue
             if "solve(" in src or "simplify(" in src:
                 solver_only.add(n)
-        # measured: sweeping all ~420 of them costs ~110 s, not affordable in the quick budget -> a seeded third per run
+        # measured: sweeping all ~420 of them costs ~110 s, not affordable in the quick budget -> a seeded quarter per run
         # (the thorough tier sweeps every module with both exponents)
-        solver_only = set(rng.sample(sorted(solver_only), len(solver_only) // 3))
+        solver_only = set(rng.sample(sorted(solver_only), len(solver_only) // 4))
         light_only -= solver_only
-    chosen = sorted(full | light_only | solver_only)
+    # core warm-up, then the module alone (minimal history for state kept by core helpers): quick -- the modules whose source
+    # mentions the core geometry / field / vector / coordinate-system helpers plus the full sample; thorough -- every module
+    def uses_core(n):
+        try:
+            src = (REPO / (n.replace(".", "/") + ".py")).read_text()
+        except OSError:
+            return False
+        return any(w in src for w in ("core.geometry", "core.fields", "core.coordinate_systems", "core.vectors", "core.points",
+            "CoordinateSystem", "ScalarField", "VectorField", "QuantityVector", "volume_element", "Vector("))
+    warm = list(modules) if not ctx.quick else sorted({n for n in modules if uses_core(n)} | full)
+    warm_only = set(warm) - full - light_only - solver_only          # need the module-alone baseline, get no counter states
+    chosen = sorted(full | light_only | solver_only | warm_only)
     slow = {n for n, o in refm.items() if o.get("import_s", 0) > 2.5}
     base_tasks = [[m, {}] for m in chosen]
     shards = [base_tasks[i::NPROC] for i in range(NPROC)]
@@ -430,6 +441,8 @@ def run(ctx):
             continue
         delta = {p: int(v) for p, v in o.get("ids", {}).items() if v}
         if not delta:
+            continue
+        if name in warm_only:
             continue
         light = name in light_only
         if light:
@@ -469,35 +482,20 @@ def run(ctx):
             tasks.append([name, {p: lead * 10**e for p in delta}])
             n_states += 1
             n_lead_states += 1
-    # core warm-up, then the module alone (minimal history for state kept by core helpers): quick -- the modules whose source
-    # mentions the core geometry / field / vector / coordinate-system helpers plus the full sample; thorough -- every module
-    def uses_core(n):
-        try:
-            src = (REPO / (n.replace(".", "/") + ".py")).read_text()
-        except OSError:
-            return False
-        return any(w in src for w in ("core.geometry", "core.fields", "core.coordinate_systems", "core.vectors", "core.points",
-            "CoordinateSystem", "ScalarField", "VectorField", "QuantityVector", "volume_element", "Vector("))
-    warm = [n for n in modules if alone.get(n, {}).get("import") == "ok" or n not in alone] if not ctx.quick else \
-        sorted({n for n in modules if uses_core(n)} | full)
     nw = 4 if ctx.quick else NPROC              # the warm-up itself costs ~11 s per parent process
     wshards = [[[n, {}] for n in warm[i::nw]] for i in range(nw)]
     wseeds = [rng.randrange(1, 2**32 - 1) for _ in wshards]
     rng.shuffle(tasks)
     shards = [tasks[i::NPROC] for i in range(NPROC)]
     seeds = [rng.randrange(1, 2**32 - 1) for _ in shards]
-    pass2 = parallel([(lambda k=k, sh=sh: run_worker(ctx, f"states{k}", {"mode": "fork", "tasks": sh, "calc": True, "argseed": argseed,
-        "srepr": True}, seeds[k], timeout=1500)) for k, sh in enumerate(shards) if sh])
-    passw = parallel([(lambda k=k, sh=sh: run_worker(ctx, f"warm{k}", {"mode": "fork", "tasks": sh, "calc": True, "argseed": argseed,
-        "srepr": True, "warmup": True}, wseeds[k], timeout=1500)) for k, sh in enumerate(wshards) if sh])
+    jobs2 = [(lambda k=k, sh=sh: run_worker(ctx, f"states{k}", {"mode": "fork", "tasks": sh, "calc": True, "argseed": argseed,
+        "srepr": True}, seeds[k], timeout=1500)) for k, sh in enumerate(shards) if sh]
+    jobsw = [(lambda k=k, sh=sh: run_worker(ctx, f"warm{k}", {"mode": "fork", "tasks": sh, "calc": True, "argseed": argseed,
+        "srepr": True, "warmup": True}, wseeds[k], timeout=1500)) for k, sh in enumerate(wshards) if sh]
+    both = parallel(jobsw + jobs2)                 # one wave: the warm-up parents start first and overlap with the state runs
+    passw, pass2 = both[:len(jobsw)], both[len(jobsw):]
     compared_w = 0
     warm_ref = {}
-    need_ref = [n for n in warm if n not in alone]
-    if need_ref:      # quick: core-using modules outside the sample have no module-alone baseline yet
-        for r in parallel([(lambda k=k, sh=sh: run_worker(ctx, f"alone_w{k}", {"mode": "fork", "tasks": sh, "calc": True, "argseed": argseed,
-                "srepr": True}, 0)) for k, sh in enumerate([[[n, {}] for n in need_ref[i::NPROC]] for i in range(NPROC)]) if sh]):
-            for name, lst in r.get("modules", {}).items():
-                warm_ref[name] = lst[0]
     for k, r in enumerate(passw):
         if "worker_error" in r:
             ctx.violation(f"C03:worker:warm{k}", f"core warm-up worker failed: {r['worker_error'][:300]}",
